@@ -553,6 +553,13 @@ fn quiescence_probe() {
             QUIESCE.lock().unwrap().push((k, s, true, inv, ret, true));
         }
     }
+    // after the probe emissions every probed event callsite has been hit with its collector live: it must have
+    // been offered to that collector at some point (judged by the oracle only where the collector accepts the
+    // callsite, so that the level gate in front of registration was certainly open)
+    let after = rec::snapshot_log();
+    for q in QUIESCE.lock().unwrap().iter_mut() {
+        q.2 = after.iter().any(|r| r.k == q.0 && r.kind == "register_callsite" && r.site == q.1 as i32 && r.skind == 0);
+    }
 }
 
 fn sig_f1(hist: &[Hist], e_t: usize, e_inv: u64, g_ok: Option<&Hist>) -> bool {
@@ -749,8 +756,8 @@ fn oracle(prop: &str, sync: bool, hist: &[Hist], log: &[Rec], filters: &[Option<
         if !acc && delivered_here {
             violation("spurious-emission", format!("after quiescence collector {k} rejects site {s} but received it"));
         }
-        if !*offered {
-            violation("not-offered", format!("callsite {s} was registered during the run but never offered to live collector {k}"));
+        if acc && !*offered {
+            violation("not-offered", format!("event callsite {s} was hit with collector {k} live and accepting, but was never offered to it (register_callsite)"));
         }
     }
     if !q.is_empty() {
